@@ -1,8 +1,68 @@
-(* C33/Proofs.v — lemmas behind C33/Properties.v. *)
+(* C33/Proofs.v — lemmas behind C33/Properties.v: the theorems of Scale (Total, Cost) instantiated
+   at the message schemas. *)
+From Coq Require Import ZifyN ZifyNat ZifyBool.
 From Common Require Import Bytes Outcome.
-From Scale Require Import Compact Types Spec Codec.
+From Scale Require Import Compact Types Spec Codec MonadLemmas Total Cost.
 From C33 Require Import Model.
 Local Open Scope N_scope.
 
 Lemma schemas_wf : forallb wf_ty schemas = true.
 Proof. vm_compute. reflexivity. Qed.
+
+Lemma schema_wf t : In t schemas -> wf_ty t = true.
+Proof. intro H. exact (proj1 (forallb_forall wf_ty schemas) schemas_wf t H). Qed.
+
+(* every SCALE message decoder returns a message or an error on every input: no panic, no
+   exhausted fuel (= termination within |input| + 1 element-loop iterations per sequence) *)
+Lemma total_schemas t bs : In t schemas ->
+  decode_res current t bs <> Panic /\ decode_res current t bs <> OutOfFuel.
+Proof.
+  intro H. unfold decode_res, run_decode.
+  exact (decode_total current eq_refl eq_refl t bs 0 (schema_wf t H)).
+Qed.
+
+Lemma total_body bs : fst (dec_body current bs) <> Panic /\ fst (dec_body current bs) <> OutOfFuel.
+Proof.
+  unfold dec_body. destruct bs as [|x r]; [split; discriminate|].
+  apply (total_schemas s_body (x :: r)). cbn. tauto.
+Qed.
+
+(* the layer above protobuf: block requests *)
+Lemma breq_total fields from dir maxb : exists o, breq_decode fields from dir maxb = o.
+Proof. eexists. reflexivity. Qed.
+
+Lemma linear_of t bs k : k <= ca t + cb t * len bs -> k <= (ca t + cb t) * (1 + len bs).
+Proof. intro H. eapply N.le_trans; [exact H|]. rewrite N.mul_add_distr_r, !N.mul_add_distr_l. lia. Qed.
+
+(* cost (calls of unmarshal + bytes requested from make) linear in the input, for the decoder with
+   the repaired decodeBytes *)
+Lemma cost_schemas_ideal t bs : In t schemas ->
+  decode_cost ideal t bs <= (ca t + cb t) * (1 + len bs).
+Proof.
+  intro H. apply linear_of. apply (decode_cost_linear ideal eq_refl eq_refl t bs (schema_wf t H)). now left.
+Qed.
+
+(* and on the current tree for the messages without []byte / string fields *)
+Definition bytes_free_schemas : list ty := [s_bah; s_txm; s_ghs; s_gmsg; s_warp].
+Lemma bytes_free_ok : forallb bytes_free bytes_free_schemas = true /\ forallb wf_ty bytes_free_schemas = true.
+Proof. vm_compute. split; reflexivity. Qed.
+
+Lemma cost_schemas_current t bs : In t bytes_free_schemas ->
+  decode_cost current t bs <= (ca t + cb t) * (1 + len bs).
+Proof.
+  intro H. destruct bytes_free_ok as [B W].
+  apply linear_of. apply (decode_cost_linear current eq_refl eq_refl t bs).
+  - exact (proj1 (forallb_forall wf_ty _) W t H).
+  - right. exact (proj1 (forallb_forall bytes_free _) B t H).
+Qed.
+
+(* the constants: no schema needs more than 54 500 per input byte *)
+Lemma cost_constants : forallb (fun t => ca t + cb t <=? 54500) schemas = true.
+Proof. vm_compute. reflexivity. Qed.
+
+(* finding bytes-alloc: a light request of 7 bytes makes the current decoder request 563 KiB *)
+Lemma bytes_alloc_witness :
+  let bs := map n2b [2; 104; 34; 0; 84; 150; 141] in
+  decode_res current s_lreq bs = Err 1%nat /\ 500000 <= decode_cost current s_lreq bs /\
+  bytes_alloc s_lreq bs = true /\ decode_cost ideal s_lreq bs <= 5000.
+Proof. vm_compute. repeat split; try reflexivity; discriminate. Qed.
